@@ -494,8 +494,18 @@ def work_misc(_):
                 for mand in (True, False, None):
                     i += 1
                     code = 8_000_000 + i
-                    A.register(code, f"Verif-Test-{i}", cls, vendor=vnd, mandatory=mand)
                     v = vnd or 0
+                    # the code is looked up and decoded while still unknown (start values of any lookup cache)
+                    n += 1
+                    pre = A.Avp.from_bytes(rc.enc_avp(code, b"\x00\x00\x00\x01", 0, v))
+                    if type(pre) is not A.Avp or A.get_avp_dictionary_entry(code, v) is not None:
+                        out.append(Violation("avp:registered:known-before-registration", f"{code}/{v}", {"code": code, "vendor": v}))
+                    try:
+                        A.Avp.new(code, v)
+                        out.append(Violation("avp:raw:new-accepts-unknown-code", f"{code}/{v}", {"code": code, "vendor": v}))
+                    except ValueError:
+                        pass
+                    A.register(code, f"Verif-Test-{i}", cls, vendor=vnd, mandatory=mand)
                     if tn == "grouped":
                         for t in (("L",), ("L", ("U",), ("L", ("O",)))):
                             n += 1
